@@ -70,6 +70,9 @@ def native_replay(gosmt, mpath, m, entry, replay_path, timeout=600):
                 src = os.path.join(tmp, "h%d_%s" % (i, os.path.basename(f)))
                 open(src, "w").write(txt.replace("package VERIFPKG", "package " + pkg, 1))
             rep[os.path.join(pkgdir, "zz_verif_" + os.path.basename(f))] = src
+        # stand-ins overlaid into other packages (manifest "overlays")
+        for target, srcf in (m.get("overlays") or {}).items():
+            rep[os.path.join(REPO, target)] = os.path.join(os.path.dirname(os.path.abspath(mpath)), srcf)
         entries = sorted(set(h["entry"] for h in m["harnesses"]))
         test = ["package " + pkg, "", 'import ("fmt"; "os"; "testing")', "",
                 "func TestVerifReplay(t *testing.T) {",
